@@ -304,3 +304,62 @@ def claim(ctx, rule, handlers=(), clients=(), floor=None):
     if floor is not None:
         ctx.floor(rule, floor)
     return len(ctx.obligations) - n0
+
+
+def eval_stream(f, items, send_fails_at=None):
+    """actor::iter_to_irpc evaluated: `items` = None (the iterator could not be created) or a list of "ok:<x>" / "err:<x>" items.
+    Returns (result, [what was sent into the caller's channel])"""
+    from . import feval as E, coll
+    path = "actor::iter_to_irpc"
+    sent = []
+    C = coll.Collections(f)
+
+    def oracle(kind, name, payload, site):
+        if kind == "await":
+            if str(name).startswith("fut:send#"):
+                i = int(str(name).split("#")[1])
+                return E.Err(E.Tok("receiver-gone")) if (send_fails_at is not None and i == send_fails_at) else E.Ok(E.UNIT)
+            return None
+        if kind != "call":
+            return None
+        t, a, it = payload
+        names = [it.tokname(x).strip("&*") for x in a]
+        full = (t["f"].get("full") or "") + (t["f"].get("path") or "")
+        if name == "send" and names and names[0] == "channel":
+            sent.append(E.describe(it.resolve(a[1]), f))
+            return E.Tok("fut:send#%d" % (len(sent) - 1))
+        if name == "new" and "RpcError" in full:
+            return E.Tok("rpc(%s)" % names[0])
+        if name == "deref" and a:
+            return a[0]
+        return C.handle(kind, name, payload, site)
+    if items is None:
+        arg = E.Err(E.Tok("no-iterator"))
+    else:
+        arg = E.Ok(coll.seq("iter", [(E.Ok(E.Tok(x[3:])) if x.startswith("ok:") else E.Err(E.Tok(x[4:]))) for x in items]))
+    try:
+        ret, hp, evs = E.run_async(f, path, [E.Tok("channel"), arg], {}, oracle)
+        return E.describe(ret, f), sent
+    except E.Unsupported as e:
+        return "UNSUPPORTED-FORM: %s" % e, sent
+
+
+def check_stream(ctx, rule):
+    """streamed replies (get_many, list_authors, list_replicas): every item the store yields is sent to the caller, in order,
+    a failing row as an error item (not as a clean end of the stream), a failure to create the iterator as one error item;
+    sending stops only when the caller is gone"""
+    f = ctx.facts
+    b = f.body("actor::iter_to_irpc::{closure#0}")
+    ctx.touch(b)
+    for label, items in (("three-rows", ["ok:a", "ok:b", "ok:c"]), ("failing-row-in-the-middle", ["ok:a", "err:e", "ok:c"]), ("failing-row-last", ["ok:a", "err:e"]), ("no-rows", []), ("no-iterator", None)):
+        got, sent = eval_stream(f, items)
+        if items is None:
+            ok = got == "Ok(())" and len(sent) == 1 and sent[0].startswith("Err(")
+            want = "one error item"
+        else:
+            want_l = [("Ok(%s)" % x[3:]) if x.startswith("ok:") else "Err(" for x in items]
+            ok = got == "Ok(())" and len(sent) == len(items) and all((s == w) if w.startswith("Ok(") else s.startswith(w) for s, w in zip(sent, want_l))
+            want = "every item in order, a failing row as an error item"
+        ctx.check(ok, rule, "actor::iter_to_irpc", "stream[%s]" % label, "returns %s, sends %s; spec: %s" % (got, sent, want), b.sp)
+    got, sent = eval_stream(f, ["ok:a", "ok:b", "ok:c"], send_fails_at=1)
+    ctx.check(got.startswith("Err(") and sent == ["Ok(a)", "Ok(b)"], rule, "actor::iter_to_irpc", "stream[caller-gone-at-the-second-item]", "returns %s, sends %s; spec: stops at the failed send" % (got, sent), b.sp)
